@@ -14,6 +14,7 @@ inductive JVal where
   | int (n : Int)
   | float (f : FloatAtom)
   | str (s : String)
+  | strf (s : String) (f : FloatAtom)   -- a string together with the float its lexical form denotes (A-LEX: supplied by the harness)
   | arr (l : List JVal)
   | obj (kvs : List (String × JVal))
   deriving Repr, Inhabited
@@ -149,6 +150,7 @@ def errUnspec : Err := "unspecified"
 /-- Python `str(x)` of a JSON scalar (the Literal constructor stringifies its value) -/
 def jsonPyStr : JVal → Option String
   | .str s => some s
+  | .strf s _ => some s
   | .int n => some (toString n)
   | .float f => some f.repr
   | .bool b => some (if b then "True" else "False")
@@ -157,6 +159,7 @@ def jsonPyStr : JVal → Option String
 
 def jsonFloatHint : JVal → Option FloatAtom
   | .float f => some f
+  | .strf _ f => some f
   | _ => none
 
 /-- result of `decode_json_representation`: an argument for `add_attributes` -/
@@ -172,6 +175,7 @@ def jsonName (h : Heap) (c : Nat) (j : Option JVal) : Except Err (Option QName) 
   | none => .ok none
   | some .null => .ok none
   | some (.str s) => .ok (h.validName c (.str s)).2       -- the string path never mutates
+  | some (.strf s _) => .ok (h.validName c (.str s)).2
   | some _ => .ok none                                     -- non-string: valid_qualified_name returns None
 
 /-- `decode_json_representation(literal, bundle)` -/
@@ -205,6 +209,7 @@ def decodeJsonValue (h : Heap) (c : Nat) (j : JVal) : Except Err DecVal :=
             else .ok { value := .val (.lit s (some (provQ "InternationalizedString")) (some l)) }
           | _, _ => .error errUnspec
   | .str s => .ok { value := .val (.str s) }
+  | .strf s _ => .ok { value := .val (.str s) }
   | .int n => .ok { value := .val (.int n) }
   | .float f => .ok { value := .val (.float f) }
   | .bool b => .ok { value := .val (.bool b) }
@@ -262,6 +267,9 @@ def decodeElemAttrs (h : Heap) (c : Nat) (kind : RecKind) :
               | .str s => match parseIso s with
                 | some t => .ok (.val (.dt t))
                 | none => .ok .nil            -- parse_xsd_datetime returns None on ValueError
+              | .strf s _ => match parseIso s with
+                | some t => .ok (.val (.dt t))
+                | none => .ok .nil
               | _ => .error errType            -- dateutil: TypeError on non-strings
           match value with
           | .error e => .error e
